@@ -46,7 +46,10 @@ Inductive counter :=
 | SpanScraped (s : signal)    (* scraped_{metric_points,log_records} attribute of scraper spans         *)
 | SpanErrored (s : signal)    (* errored_...                                                            *)
 | SpanSent (s : signal)       (* items.sent attribute of exporter spans                                 *)
-| SpanFailed (s : signal).    (* items.failed                                                           *)
+| SpanFailed (s : signal)     (* items.failed                                                           *)
+(* pipeline instrumentation (service/internal/obsconsumer): the item counter it is given, by outcome *)
+| PipeOk (s : signal)         (* <item counter>{outcome=success} *)
+| PipeFail (s : signal).      (* <item counter>{outcome=failure} *)
 
 Definition counter_eqb (a b : counter) : bool :=
   match a, b with
@@ -55,7 +58,8 @@ Definition counter_eqb (a b : counter) : bool :=
   | ProcIn s, ProcIn t | ProcOut s, ProcOut t
   | ExpSent s, ExpSent t | ExpFailed s, ExpFailed t | ExpEnqFailed s, ExpEnqFailed t
   | SpanAcc s, SpanAcc t | SpanRef s, SpanRef t | SpanScraped s, SpanScraped t | SpanErrored s, SpanErrored t
-  | SpanSent s, SpanSent t | SpanFailed s, SpanFailed t => signal_eqb s t
+  | SpanSent s, SpanSent t | SpanFailed s, SpanFailed t
+  | PipeOk s, PipeOk t | PipeFail s, PipeFail t => signal_eqb s t
   | _, _ => false
   end.
 
@@ -166,6 +170,21 @@ Definition proc_returns_err (o : proc_op) : bool :=
   match po_res o with PForward _ e => e | PError => true | PSkip => false end.
 
 Definition proc_run (s : signal) (ops : list proc_op) : ledger := flat_map (proc_step s) ops.
+
+(* ============================== pipeline instrumentation (obsconsumer) ================= *)
+
+(* one Consume call through service/internal/obsconsumer {logs,metrics,traces,profiles}.go:
+   pc_n = items in the payload when the call is made, pc_after = items left in the payload when the
+   downstream consumer returns (it may move them out, drop some, add some: MutatesData),
+   pc_err = the downstream consumer returned an error *)
+Record pipe_op := { pc_n : Z; pc_after : Z; pc_err : bool }.
+
+(* `itemCount := ld.LogRecordCount()` is taken BEFORE the downstream call ("the data may be mutated
+   downstream"); the outcome attribute follows the error; all four signals alike *)
+Definition pipe_consume (s : signal) (o : pipe_op) : ledger :=
+  if pc_err o then [(PipeFail s, pc_n o)] else [(PipeOk s, pc_n o)].
+
+Definition pipe_run (s : signal) (ops : list pipe_op) : ledger := flat_map (pipe_consume s) ops.
 
 (* ============================== exporter helper ======================================= *)
 
